@@ -862,7 +862,7 @@ fn cmd_check(a: &Args) -> i32 {
         (lay.runs + lik.runs) as f64 / sim_wall.max(1e-9)
     );
     if world::FOREIGN_THREAD_SEAM_USE.load(std::sync::atomic::Ordering::SeqCst) {
-        harness_error("the generator reached a simulator seam from a thread it spawned itself: this simulator owns no thread scheduler (the pinned generators are single-threaded), so no verdict is given");
+        harness_error("the generator reached a simulator seam from an OS thread the simulator does not own (a thread created around the shadowed std::thread, e.g. through ::std or a dependency): no verdict is given");
     }
     {
         let sum = |m: &BTreeMap<(&'static str, &'static str), u64>, o: &str| -> u64 { m.iter().filter(|((_, x), _)| *x == o).map(|(_, n)| *n).sum() };
